@@ -314,7 +314,7 @@ def parse_terminator(s):
         t = parse_targets(m.group(2))
         return ("drop", parse_place(m.group(1)), bbnum(t["return"]))
     # call:  DEST = FUNC(ARGS) -> [return: bbN, unwind ...]   |   FUNC(ARGS) -> unwind ...  (diverging)
-    m = re.fullmatch(r"(?:(.*?) = )?(.*)\((.*)\) -> (\[.*\]|unwind .*)", s, re.S)
+    m = re.fullmatch(r"(?:(.*?) = )?(.*)\((.*)\) -> (\[.*\]|unwind .*|bb\d+)", s, re.S)
     if m:
         dest = parse_place(m.group(1)) if m.group(1) else None
         # function name may itself contain parens in generic args; split at the LAST top-level '(' : redo carefully
